@@ -22,29 +22,26 @@ Proof. vm_cast_no_check (eq_refl true). Qed.
 Lemma gen_all_denied : forallb (check_deny G) (names G) = true.
 Proof. vm_cast_no_check (eq_refl true). Qed.
 
-Lemma gen_nodes_bounded :
-  forallb (fun e => Pos.leb (e_src e) Gen.max_node && Pos.leb (e_dst e) Gen.max_node) Gen.heap &&
-  forallb (fun p => Pos.leb (snd p) Gen.max_node) (Gen.env1 ++ Gen.env2) = true.
-Proof. vm_compute. reflexivity. Qed.
+Lemma gen_bounded : heap_bounded G Gen.max_node = true.
+Proof. vm_cast_no_check (eq_refl true). Qed.
 
 Definition set_of (o : option PS.t) : PS.t := match o with Some s => s | None => PS.empty end.
 Definition S1 : PS.t := set_of (world_reach G).
 Definition S2 : PS.t := set_of (world_reach G').
 (* what configuration 1 may touch: everything except the objects only configuration 2 can reach *)
-Definition P1 (n : node) : bool := negb (PS.mem n S2) || PS.mem n S1.
+Definition P1 : node -> bool := touch1 S1 S2.
 
 Lemma gen_S1 : world_reach G = Some S1.
 Proof. vm_compute. reflexivity. Qed.
 Lemma gen_S2 : world_reach G' = Some S2.
 Proof. vm_compute. reflexivity. Qed.
-
 Lemma gen_P1_closed : forallb (fun e => implb (P1 (e_src e)) (P1 (e_dst e))) Gen.heap = true.
-Proof. vm_compute. reflexivity. Qed.
+Proof. vm_cast_no_check (eq_refl true). Qed.
 Lemma gen_P1_env : forallb (fun p => P1 (snd p)) Gen.env1 = true.
-Proof. vm_compute. reflexivity. Qed.
+Proof. vm_cast_no_check (eq_refl true). Qed.
 (* the two configurations share no module object *)
 Lemma gen_no_shared_module : forallb (fun m => negb (PS.mem m S1 && PS.mem m S2)) Gen.modules = true.
-Proof. vm_compute. reflexivity. Qed.
+Proof. vm_cast_no_check (eq_refl true). Qed.
 
 (* ---------------------------------------------------------------- the closure computation is exact *)
 
@@ -71,10 +68,7 @@ Proof. exact reach_access. Qed.
    object registered under the denied name cannot be obtained by any access path. *)
 Theorem C11_denied_unreachable : forall nm, In nm (names G) ->
   exists o, lookup_name G nm = Some o /\ ~ Access (apply_config G (deny1 nm)) o.
-Proof.
-  intros nm Hin. apply check_deny_sound.
-  exact (proj1 (forallb_forall _ _) gen_all_denied nm Hin).
-Qed.
+Proof. exact (denied_from_check G gen_all_denied). Qed.
 
 (* For every well-formed world (any host-defined modules as well): a denied registered name stops resolving. *)
 Theorem C11_deny_unregisters : forall w nm,
@@ -93,13 +87,6 @@ Theorem C11_override_installs : forall w nm v,
   wf_world w = true -> In nm (names w) -> lookup_name (apply_config w (override1 nm v)) nm = Some v.
 Proof. exact override_installs. Qed.
 
-Lemma fresh_no_edges : forall v, (Gen.max_node < v)%positive -> forall e, In e (w_heap G) -> e_src e <> v.
-Proof.
-  intros v Hv e He Heq. pose proof gen_nodes_bounded as Hb. apply andb_true_iff in Hb. destruct Hb as [Hb _].
-  rewrite forallb_forall in Hb. specialize (Hb e He). apply andb_true_iff in Hb. destruct Hb as [Hb _].
-  apply Pos.leb_le in Hb. rewrite Heq in Hb. apply Pos.lt_nle in Hv. contradiction.
-Qed.
-
 (* Finite domain (the same names) x every fresh replacement object v (any identity outside the generated heap):
    after WithGlobalOverride(nm, v) the name resolves to v, v is accessible, and the object that was registered
    under nm cannot be obtained by any access path. *)
@@ -108,25 +95,9 @@ Theorem C11_override_observed : forall v nm, (Gen.max_node < v)%positive -> In n
             lookup_name (apply_config G (override1 nm v)) nm = Some v /\
             Access (apply_config G (override1 nm v)) v /\
             (o <> v -> ~ Access (apply_config G (override1 nm v)) o).
-Proof.
-  intros v nm Hv Hin.
-  destruct (check_deny_sound_reach G nm (proj1 (forallb_forall _ _) gen_all_denied nm Hin)) as [o [Hl Hnr]].
-  exists o. split; [exact Hl|]. pose proof (override_installs G nm v gen_wf Hin) as Hi.
-  split; [exact Hi|]. split; [eapply lookup_access; exact Hi|].
-  intros Hne Ha. destruct (override_le_deny G nm v gen_wf Hin (fresh_no_edges v Hv) o Ha) as [H|H]; [contradiction|].
-  exact (Hnr H).
-Qed.
+Proof. exact (override_observed_from_check G Gen.max_node gen_wf gen_all_denied gen_bounded). Qed.
 
 (* ---------------------------------------------------------------- independence of configurations *)
-
-Lemma P1_closed : forall e, In e Gen.heap -> P1 (e_src e) = true -> P1 (e_dst e) = true.
-Proof.
-  intros e He Hs. pose proof gen_P1_closed as H. rewrite forallb_forall in H. specialize (H e He).
-  rewrite Hs in H. exact H.
-Qed.
-
-Lemma P1_env : forall x n, In (x, n) Gen.env1 -> P1 n = true.
-Proof. intros x n Hin. pose proof gen_P1_env as H. rewrite forallb_forall in H. exact (H (x, n) Hin). Qed.
 
 (* Whatever configuration is applied to one Config value (ANY deny list, ANY overrides and extra globals, as long
    as the host does not hand it objects that belong to the other Config only), every object reachable from the
@@ -138,17 +109,8 @@ Theorem C11_configs_independent : forall c,
   forall n, Reach (edges_of Gen.heap) (env_nodes Gen.env2) n ->
   forall e, e_src e = n -> (In e (w_heap (apply_config G c)) <-> In e Gen.heap).
 Proof.
-  intros c Hx Ho n Hr e Hsrc.
-  apply (apply_config_frame P1 Gen.heap Gen.modules Gen.env1 c P1_closed P1_env Hx Ho).
-  unfold frozen. rewrite Hsrc.
-  assert (Hn2 : PS.mem n S2 = true).
-  { apply PS.mem_spec. pose proof gen_S2 as H2. unfold world_reach in H2. eapply reach_complete in H2.
-    apply H2. exact Hr. }
-  destruct (PS.mem n S1) eqn:Hn1.
-  - right. destruct (is_module Gen.modules n) eqn:Hm; [|reflexivity]. exfalso.
-    apply is_module_true_eq in Hm. pose proof gen_no_shared_module as H. rewrite forallb_forall in H.
-    specialize (H n Hm). rewrite Hn1, Hn2 in H. discriminate.
-  - left. unfold P1. rewrite Hn1, Hn2. reflexivity.
+  exact (independent_from_checks Gen.heap Gen.modules Gen.env1 Gen.env2 S1 S2 gen_S1 gen_S2
+           gen_P1_closed gen_P1_env gen_no_shared_module).
 Qed.
 
 (* ---------------------------------------------------------------- the defect in resolveModule (nested names) *)
@@ -188,3 +150,6 @@ Example C11_fresh_exists : (Gen.max_node < Pos.succ Gen.max_node)%positive.
 Proof. apply Pos.lt_succ_diag_r. Qed.
 Example C11_nested_depth2_ok : lookup_name (apply_config nested_world (deny1 "vx.inner.deep")) "vx.inner.deep" = None.
 Proof. vm_compute. reflexivity. Qed.
+Example C11_indep_hyp_satisfiable :
+  P1 (Pos.succ Gen.max_node) && existsb (fun m => PS.mem m S2) Gen.modules && negb (existsb (fun m => PS.mem m S1 && PS.mem m S2) Gen.modules) = true.
+Proof. vm_cast_no_check (eq_refl true). Qed.
